@@ -41,6 +41,19 @@ Judge(e) ==
          (IF e.got = "ok" THEN {} ELSE {"config.read.result"})
          \cup (IF e.insts = w /\ e.rinsts = r THEN {} ELSE {"config.call.persist"})
          \cup (IF e.fresh = WDefaults /\ e.rfresh = RDefaults THEN {} ELSE {"config.defaults"})
+    [] e.op = "ParseCall" ->
+         \* format options given to one parse call reach the driver for that call; none given: the instance's or none
+         (IF e.callfopt # "" THEN (IF e.gotfopt = e.callfopt THEN {} ELSE {"config.call.fopt"})
+          ELSE IF e.gotfopt \in {"", r[e.i].fopt} THEN {} ELSE {"config.call.fopt-invented"})
+         \cup (IF e.insts = w /\ e.rinsts = r THEN {} ELSE {"config.call.persist"})
+         \cup (IF e.fresh = WDefaults /\ e.rfresh = RDefaults THEN {} ELSE {"config.defaults"})
+    [] e.op = "WriteCall" ->
+         (IF e.callfopt # "" THEN (IF e.gotfopt = e.callfopt /\ e.gotrenderfopt = e.callfopt THEN {} ELSE {"config.call.fopt"})
+          ELSE IF {e.gotfopt, e.gotrenderfopt} \subseteq {"", w[e.i].fopt} THEN {} ELSE {"config.call.fopt-invented"})
+         \cup (IF e.callindent # "" THEN (IF e.gotindent = e.callindent THEN {} ELSE {"config.call.render"})
+               ELSE IF e.gotindent \in {WDefaults.indent, w[e.i].indent} THEN {} ELSE {"config.call.render-invented"})
+         \cup (IF e.insts = w /\ e.rinsts = r THEN {} ELSE {"config.call.persist"})
+         \cup (IF e.fresh = WDefaults /\ e.rfresh = RDefaults THEN {} ELSE {"config.defaults"})
     [] e.op = "StoreNoClobber" ->
          \* a second Store of the same document through instance e.i succeeds iff the instance was not built with no-clobber
          (IF e.second = (IF w[e.i].noclobber = "true" THEN "err" ELSE "ok") THEN {} ELSE {"config.store.noclobber"})
